@@ -35,13 +35,17 @@ def case_key(case):
 
 
 class G:
-    def __init__(self, rng, attr=False, collide=False, tuples=True):
+    def __init__(self, rng, attr=False, collide=False, tuples=True, surrogates=False):
         self.r = rng
         self.attr = attr
         self.collide = collide
         self.tuples = tuples
         self.keys = list(KEYS) + ([] if attr else KEYS_DOT)
         self.scalars = list(CLEAN_SCALARS) + (COLLIDE_SCALARS if collide else [])
+        if surrogates:
+            # unpaired surrogates are legal in JSON strings (what os.fsdecode gives for a non-UTF-8 file name)
+            self.scalars += ["caf\udce9.dat", "\ud83d"]
+            self.keys = self.keys + ["k\udc80"]
         if attr:
             pass
 
